@@ -84,19 +84,20 @@ impl Publish {
 
     #[inline]
     pub fn ack(self) -> ProtocolMessageAck {
-        if let Some(id) = self.0.packet_id {
-            ProtocolMessageAck { result: ProtocolMessageKind::PublishAck(id) }
-        } else {
-            ProtocolMessageAck { result: ProtocolMessageKind::Nothing }
+        ProtocolMessageAck { result: self.ack_kind() }
+    }
+
+    /// QoS 1 is answered with PUBACK, QoS 2 with PUBREC
+    fn ack_kind(&self) -> ProtocolMessageKind {
+        match (self.0.packet_id, self.0.qos) {
+            (Some(id), codec::QoS::ExactlyOnce) => ProtocolMessageKind::PublishReceived(id),
+            (Some(id), _) => ProtocolMessageKind::PublishAck(id),
+            (None, _) => ProtocolMessageKind::Nothing,
         }
     }
 
     #[inline]
     pub fn into_inner(self) -> (ProtocolMessageAck, codec::Publish) {
-        if let Some(id) = self.0.packet_id {
-            (ProtocolMessageAck { result: ProtocolMessageKind::PublishAck(id) }, self.0)
-        } else {
-            (ProtocolMessageAck { result: ProtocolMessageKind::Nothing }, self.0)
-        }
+        (ProtocolMessageAck { result: self.ack_kind() }, self.0)
     }
 }
